@@ -25,7 +25,10 @@ LEVEL_TEXT = ('Theorems (Props/C14.v): for EVERY well-formed UAM-IV file and EVE
               'evaluated in Coq (constructor L), the full byte sweep stays in Python. '
               'ONE3D FAMILY (one3d / humidity / vertical_diffusivity; Model/One3d.v, Proofs/One3dProofs.v; Memmap reader model with the translated record_items and time_steps expressions, reshapes / first-stamp-change / memmap size rules hand-modelled): C14_one3d_accepts_iff gives the EXACT set of accepted cuts (k >= 2 whole steps, presenting exactly the first k '
               'steps; one whole step, record boundaries inside a step and ragged cuts all raise), C14_one3d_every_prefix, C14_one3d_reader_local, '
-              'C14_one3d_single_step_never_opens; a subset of cuts is evaluated in Coq (constructor OD) next to the full Python sweep.')
+              'C14_one3d_single_step_never_opens; a subset of cuts is evaluated in Coq (constructor OD) next to the full Python sweep. '
+              'TEMPERATURE and HEIGHT/PRESSURE (Model/TempHp.v, Proofs/TempHpProofs.v; layered record files over the One3d codec; both Memmap readers hand-modelled incl. the for-loop fall-through, the lazy reshapes and the marker check): C14_temperature_two_record_prefix_refuted (for EVERY readable file the prefix holding exactly two records is '
+              'accepted with fabricated content = finding region 14), C14_temperature_accepts_iff (exact), C14_temperature_every_prefix_partial (every other cut), '
+              'C14_heightpres_every_prefix and C14_heightpres_accepts_iff at full strength, both reader_local; cuts incl. the two-record prefix evaluated in Coq (TD / HD).')
 LEVEL_NOTE = 'Trusted: Coq kernel+vm_compute, py2coq, harness. Met formats other than lateral_boundary: every-prefix sweep judged by the Python oracle only.'
 TECHNIQUE = 'Coq proof (prefix theorem for the reader model) + exhaustive byte-prefix sweep per generated file'
 
@@ -166,13 +169,16 @@ def gen(rng, n, tier):  # noqa: F811
     for i in range(n):
         c = MC.gen_any(rng, tier=tier, min_steps=2)
         out.append(dict(kind='met-sweep-' + c['fmt'], content=c, write=False, sweep=True))
-        if c['fmt'] in M.O3_FORMATS:
-            # one3d family: a subset of cuts evaluated in Coq (Model/One3d.v) next to the full Python sweep
+        if c['fmt'] in M.O3_FORMATS + M.TH_FORMATS:
+            # layered met formats: a subset of cuts evaluated in Coq (Model/One3d.v, Model/TempHp.v) next to the full sweep;
+            # always every whole-step boundary and, for temperature, the two-record prefix (known finding region 14)
             ri = c['nx'] * c['ny'] + 4
-            nrec = c['nz'] * len(c['steps'])
+            m = M.recs_per_step(c)
+            nrec = m * len(c['steps'])
             bs = [ri * (j + 1) for j in range(nrec)]
-            for x in _pick_cuts_at(rng, bs, ri * nrec, [ri * c['nz'] * k for k in range(1, len(c['steps']) + 1)], 14):
-                out.append(dict(kind='o3-cut', content=c, cut=x))
+            bounds = [ri * m * k for k in range(1, len(c['steps']) + 1)] + ([2 * ri] if c['fmt'] == 'temperature' else [])
+            for x in _pick_cuts_at(rng, bs, ri * nrec, bounds, 14):
+                out.append(dict(kind='layered-cut', content=c, cut=x))
     # lateral-boundary files: a subset of cuts evaluated in Coq (Model/Lbdy.v); the full Python sweep of every prefix
     # runs on the lateral_boundary share of the met-sweep stream above (and on every third file of this stream)
     for i in range(max(1, n // 6)):
@@ -192,7 +198,7 @@ _impl_u = impl
 def impl(case):  # noqa: F811
     if MC.is_lb(case):
         return MC.run_lb(case)
-    if MC.is_o3(case):
+    if MC.is_layered(case):
         return MC.run_o3(case)
     if case['kind'].startswith('met-'):
         return MC.run_met(case)
@@ -205,8 +211,8 @@ _coq_u = coq_term
 def coq_term(case, obs):  # noqa: F811
     if MC.is_lb(case):
         return None if 'raises' in obs else MC.lb_term_read(case, obs)
-    if MC.is_o3(case):
-        return None if 'raises' in obs else MC.o3_term(case, obs)
+    if MC.is_layered(case):
+        return None if 'raises' in obs else MC.layered_term(case, obs)
     if case['kind'].startswith('met-'):
         return None
     return _coq_u(case, obs)
@@ -223,10 +229,10 @@ def py_check(case, obs):  # noqa: F811
         if (obs.get('full') or {}).get('status') != 'ok':
             why.append('library reader %s on the whole file' % (obs.get('full') or {}).get('status'))
         return dict(s_ok=not why, region=0, why='; '.join(why[:3]))
-    if MC.is_o3(case):
+    if MC.is_layered(case):
         if 'raises' in obs:
             return dict(s_ok=False, why='harness/impl raised ' + str(obs))
-        why = MC.o3_py_check(case, obs)
+        why = MC.layered_py_check(case, obs)
         return dict(s_ok=not why, region=0, why='; '.join(why[:3]))
     if not case['kind'].startswith('met-'):
         return _py_u(case, obs)
@@ -258,7 +264,7 @@ _nt_u = nontrivial
 
 
 def nontrivial(case, obs):  # noqa: F811
-    if MC.is_lb(case) or MC.is_o3(case):
+    if MC.is_lb(case) or MC.is_layered(case):
         return True
     if case['kind'].startswith('met-'):
         return len(obs.get('sweep', {}).get('accepted', [])) > 0
